@@ -175,7 +175,9 @@ var ledgerSpecs = []ledgerSpec{
 			// genesis wallet as issuer of a contract / of a transfer, node wallet as issuer of a contract, self-sealed contract
 			{"sealing-rules-contracts+crafted", ledger.Cfg{Nodes: []string{"G", "N1"}, Supply: sp(10, 0),
 				Menu:    []ledger.TxSpec{{Label: "gd", From: "G", To: "A", Data: "d"}, {Label: "nd", From: "N1", To: "A", Data: "d"}, t1},
-				Crafted: []ledger.TxSpec{{Label: "mgd", From: "G", To: "A", Data: "d"}, tx("mgs", "G", "A", 1, 0), {Label: "msd", From: "M", To: "A", Data: "d"}},
+				Crafted: []ledger.TxSpec{{Label: "mgd", From: "G", To: "A", Data: "d"}, tx("mgs", "G", "A", 1, 0), {Label: "msd", From: "M", To: "A", Data: "d"},
+					// the same wallets under an alias address (other version byte, same key): the rules are about wallets, not strings
+					{Label: "malias", From: "M~v1", To: "A", Data: "d"}, {Label: "galias", From: "G~v1", To: "A", Data: "d"}},
 				Tick:    true, Props: only("C10")}, d, 0, 0},
 		}
 	}},
